@@ -170,11 +170,8 @@ def register(chk):
         chk.add("x86:%s:bigint_768_square" % v, ob_x86_multiply, variant, True)
         chk.add("x86:%s:fpbase_384_montgomery_reduce" % v, ob_x86_montgomery, variant)
     chk.add("x86:dispatch-table", ob_dispatch)
-    try:
-        import c03_portable
-        c03_portable.register(chk)
-    except ImportError:
-        pass
+    import c03_portable
+    c03_portable.register(chk)
 
 
 def main(argv=None):
@@ -182,6 +179,9 @@ def main(argv=None):
     chk.replayer = replay_kernel
     sys.path.insert(0, os.path.dirname(os.path.abspath(__file__)))
     x86_prog()        # assemble once in the parent; workers inherit it
+    import c02
+    for cfg in ("P64", "P32"):
+        c02.prog_for(cfg)
     register(chk)
     chk.explanation = ("Each routine of each back end is symbolically executed (x86-64: the instruction stream clang's assembler emits for the "
                        "current .s files, read back with llvm-objdump; portable C++: clang IR) with machine words as affine integer forms; z3 (QF_LIA) "
@@ -190,7 +190,8 @@ def main(argv=None):
                        "first compare: T*2^384 = a + U*p and T < 2p for the prefix, final conditional subtraction from an arbitrary T < 2p.")
     chk.bounds = ["all 384-bit operands (768-bit reduction inputs below p*2^384); aliasing res==a, res==b, res==a==b for the add/sub/double kernels",
                   "no unwinding bound: straight-line code / concrete word loops executed for their real trip count",
-                  "NOT covered in this round: AArch64 and ARMv6-M assembly back ends (no interpreter built yet) - stated in DESIGN.md"]
+                  "portable C++ back ends: 64-bit words (-DDISABLE_ASM) and 32-bit words (-DDISABLE_ASM -U__SIZEOF_INT128__), IR of the current tree",
+                  "NOT covered: AArch64 and ARMv6-M assembly back ends (no interpreter for those ISAs) - stated in DESIGN.md"]
     chk.trusted = ["T1: Montgomery uniqueness", "x86-64 instruction semantics as implemented in engine/easm_x86.py (add/adc/sub/sbb/mul/mulx/adcx/adox/imul/flags)",
                    "clang's integrated assembler and llvm-objdump", "z3 linear integer arithmetic"]
     chk.assumptions = ["operands of fpbase kernels are < p (class invariant, established by C02)", "reduction input < p*2^384"]
